@@ -339,6 +339,59 @@ TABLE_MODES_FOR_SELECT = frozenset(["in table", "in caption", "in table body", "
 FRAMESET_MODES = frozenset(["in frameset", "after frameset", "after after frameset"])
 
 
+class _Stack(list):
+    """stack of open elements; additionally counts the open HTML elements by name so that the
+    scope tests can answer 'not on the stack at all' without walking (keeps deep inputs linear)"""
+    __slots__ = ("counts",)
+
+    def __init__(self):
+        list.__init__(self)
+        self.counts = {}
+
+    def _inc(self, n):
+        if n.ns == HTML_NS:
+            self.counts[n.name] = self.counts.get(n.name, 0) + 1
+
+    def _dec(self, n):
+        if n.ns == HTML_NS:
+            self.counts[n.name] -= 1
+
+    def append(self, n):
+        self._inc(n)
+        list.append(self, n)
+
+    def pop(self):
+        n = list.pop(self)
+        self._dec(n)
+        return n
+
+    def insert(self, i, n):
+        self._inc(n)
+        list.insert(self, i, n)
+
+    def __delitem__(self, key):
+        if isinstance(key, slice):
+            for n in self[key]:
+                self._dec(n)
+        else:
+            self._dec(self[key])
+        list.__delitem__(self, key)
+
+    def __setitem__(self, i, n):
+        self._dec(self[i])
+        self._inc(n)
+        list.__setitem__(self, i, n)
+
+    def has(self, names):
+        c = self.counts
+        if isinstance(names, str):
+            return c.get(names, 0) > 0
+        for x in names:
+            if c.get(x, 0) > 0:
+                return True
+        return False
+
+
 class _Parser(object):
     def __init__(self, text, scripting=False, compat=frozenset(), context=None):
         t = _load_tokenizer()
@@ -348,7 +401,7 @@ class _Parser(object):
         self.modes = set()
         self.document = Node("document")
         self.quirks = "no-quirks"
-        self.stack = []              # stack of open elements (index 0 = topmost = html)
+        self.stack = _Stack()        # stack of open elements (index 0 = topmost = html)
         self.afe = []                # list of active formatting elements; MARKER = None
         self.head = None             # head element pointer
         self.form = None             # form element pointer
@@ -467,16 +520,15 @@ class _Parser(object):
         [(MATHML_NS, n) for n in SPECIAL_MATHML] + [(SVG_NS, "desc"), (SVG_NS, "title")])
 
     def template_on_stack(self):
-        for n in self.stack:
-            if n.ns == HTML_NS and n.name == "template":
-                return True
-        return False
+        return self.stack.has("template")
 
     # ------------------------------------------------------------------ scope
     def in_scope(self, names, barriers=SCOPE_DEFAULT):
         """has an HTML element whose name is in `names` (a str or a set) in the given scope"""
         single = isinstance(names, str)
         stack = self.stack
+        if not stack.has(names):
+            return False
         i = len(stack) - 1
         while i >= 0:
             node = stack[i]
